@@ -348,6 +348,44 @@ def rule_barrier_flag(rep, prog, q):
                         sample={"call": c.loc, "in": fn.name})
 
 
+def rule_MP10(rep, prog, q):
+    rid = rep.rule("C02-MP10", "the main queue is never drained re-entrantly: _dispatch_main_queue_callback_4CF drains only after finding its `already draining` flag "
+                   "clear, and clears the flag only in the invocation that set it (a nested call made from inside a main-queue item must leave the outer drain's "
+                   "flag alone)", floor=2)
+    fn = prog.fn("_dispatch_main_queue_callback_4CF")
+    rep.saw(fn)
+    drains = calls_named(fn, "_dispatch_main_queue_drain")
+    flag_loads = [l for l in fn.all_insts() if l.op == "load" and "dq_side_suspend_cnt" in prog.fields(l)]
+    stores = [st for st in fn.all_insts() if st.op == "store" and "dq_side_suspend_cnt" in prog.fields(st)]
+    if not drains or not flag_loads or not stores:
+        rep.unknown(rid, "_dispatch_main_queue_callback_4CF: drain call / guard flag not found (drain=%d loads=%d stores=%d)" % (len(drains), len(flag_loads), len(stores)))
+        return
+    def found_clear(at):
+        """on every path to `at` the flag was observed to be zero"""
+        for iid, tv in paths.dom_ctx(fn, at).truth.items():
+            t = fn.insts[iid]
+            if t.op != "icmp" or t.d["pred"] not in ("eq", "ne"):
+                continue
+            for a, b in ((t.ops[0], t.ops[1]), (t.ops[1], t.ops[0])):
+                if b[0] == "c" and b[1] == 0:
+                    x = fn.inst(a)
+                    while x is not None and x.op in ("zext", "trunc", "and"):
+                        x = fn.inst(x.ops[0])
+                    if x in flag_loads and tv == (t.d["pred"] == "eq"):
+                        return True
+        return False
+    for c in drains:
+        rep.require(rid, found_clear(c), c.loc, fn.name, "main-drain-reentered",
+                    "_dispatch_main_queue_callback_4CF can call _dispatch_main_queue_drain without having found the `already draining` flag clear: a main-queue item "
+                    "that services the run loop re-enters the drain and a later item runs inside it, before items submitted earlier", sample={"drain": c.loc})
+    for st in stores:
+        if st.ops[0][0] == "c" and st.ops[0][1] == 0:
+            rep.require(rid, found_clear(st), st.loc, fn.name, "nested-call-clears-outer-flag",
+                        "_dispatch_main_queue_callback_4CF clears the `already draining` flag on a path where it had found it set: the nested call wipes the flag of the "
+                        "drain it is nested in, so the NEXT nested call drains the main queue re-entrantly (an item runs inside another, out of order)",
+                        sample={"store": st.loc})
+
+
 def run(rep, tier="quick", srcdir=None, only=None):
     prog, units = load(UNITS, tier, srcdir)
     rep.units = units
@@ -373,6 +411,13 @@ def run(rep, tier="quick", srcdir=None, only=None):
         rule_TR7(rep, prog, q)
     if want("C02-TB8"):
         rule_TB8(rep, q)
+    if want("C02-MP10"):
+        rule_MP10(rep, prog, q)
+    if want("C04-AI15"):
+        # a dispatch_barrier_sync (any dispatch_sync on a serial queue) takes its uncontended fast path only from the exactly idle state: with an item
+        # enqueued whose drainer has not locked the queue yet it would overtake that item (shared with C04)
+        from . import C04
+        C04.rule_AI15(rep, prog, q)
     if want("C02-OD9"):
         from .sync_common import rule_snapshot_walk_waits
         rid9 = rep.rule("C02-OD9", "the thread-bound main queue runs the items of a captured snapshot to the end, in list order: the walk waits for a producer that "
